@@ -131,6 +131,7 @@ class Cli:
             preamble=self.preamble
         )
         if self.output_file:
+            output.encode("utf-8")  # raises before the file is opened (and truncated) if the text can not be written
             with open(self.output_file, "w", encoding="utf-8") as f:
                 f.write(output)
             return f"Output is written to {self.output_file}"
